@@ -103,6 +103,18 @@ def run(ctx):
                         hm.rel,
                         rn.lineno,
                     )
+            # ... and whole: no table lookup, string folding, slicing or keys-only iteration between the field and the pre-image
+            from ..flow import lossy_uses
+
+            for f in identity:
+                is_map = any(isinstance(n, (ast.Assign, ast.AnnAssign)) and src(n.targets[0] if isinstance(n, ast.Assign) else n.target) == f"self.{f}" and n.value is not None and any(isinstance(x, ast.Dict) or (isinstance(x, ast.Call) and (call_name(x) or "") == "dict") for x in ast.walk(n.value)) for _, cc in repo.mro(mm, c) for st in cc.body if isinstance(st, FuncNode) and st.name in ("__init__", "__setstate__") for n in ast.walk(st))
+                for line, what in lossy_uses(hm, hfn, f, mapping_valued=is_map):
+                    r1.violation(
+                        f"{hm.rel}:{c.name}._calc_hash[{howner.name}]:{f}:lossy",
+                        f"identity field `{f}` of {c.name} reaches the hash through a value-losing step: {what}; two {c.name}s that differ only in what is lost there get the same hash and are merged",
+                        hm.rel,
+                        line,
+                    )
             # the field must reach the pre-image unfiltered: no comprehension filter / helper that drops entries
             for f in identity:
                 for node in ast.walk(hfn):
